@@ -317,6 +317,8 @@ class Exec(Interp):
                 raise RaiseSig(ExcValue(excname), node)
         for m in c.modifies:
             self.havoc_lvalue(m, env, fr.module)
+        if c.effect is not None:
+            c.effect(self, env)
         res = self.make_result(c, env)
         env2 = dict(env)
         env2["result"] = res
